@@ -43,6 +43,7 @@ type Contract struct {
 	SafeKinds map[string]bool
 	Modular  bool // never inline at call sites even if it has no ensures
 	NoBody   bool
+	SitesOnly bool
 	EosExit  bool
 	InlineBlocks, InlineDepth int
 	Witness  map[string]string
@@ -72,7 +73,7 @@ type SpecFunc struct {
 	Opaque bool
 }
 
-var kwRe = regexp.MustCompile(`^(func|spec|preserved|internal|inline|eosexit|requires|ensures|decreases|loop|safe|modular|terminates|witness|witnessgo|unordered|usesonly|mapwrite|callsite|nobody|end)\b`)
+var kwRe = regexp.MustCompile(`^(func|spec|preserved|internal|inline|eosexit|requires|ensures|decreases|loop|safe|modular|terminates|witness|witnessgo|unordered|usesonly|mapwrite|callsite|nobody|sitesonly|end)\b`)
 
 func (e *Engine) loadContracts() error {
 	e.contracts = map[string]*Contract{}
@@ -295,6 +296,8 @@ func (e *Engine) parseContractFile(file, pkgPath, data string) error {
 			}
 		case "eosexit":
 			cur.EosExit = true // every loop that reads a token leaves when the read hits the end of the stream
+		case "sitesonly":
+			cur.SitesOnly = true
 		case "nobody":
 			cur.NoBody = true // only the syntactic (def-use) obligations; the body is not executed
 		case "terminates":
